@@ -15,6 +15,9 @@ type routerByHTTPUser map[string][]*Router
 type Routers struct {
 	indexByDomain map[string]routerByHTTPUser
 
+	// lastID numbers the registrations: a route that is removed and added again gets a new id.
+	lastID uint64
+
 	mutex sync.RWMutex
 }
 
@@ -22,6 +25,9 @@ type Router struct {
 	domain   string
 	location string
 	httpUser string
+
+	// id is unique per registration (see Routers.lastID)
+	id uint64
 
 	// store any object here
 	payload any
@@ -52,10 +58,12 @@ func (r *Routers) Add(domain, location, httpUser string, payload any) error {
 		vrs = make([]*Router, 0, 1)
 	}
 
+	r.lastID++
 	vr := &Router{
 		domain:   domain,
 		location: location,
 		httpUser: httpUser,
+		id:       r.lastID,
 		payload:  payload,
 	}
 	vrs = append(vrs, vr)
